@@ -1,1 +1,160 @@
-import PulserModel.Sequence
+/-
+  C10 — Phase-jump time and retarget intervals are honoured.
+
+  Stated on the scheduler model (PulserModel/Schedule.lean).  In EOM mode the code (and
+  hence the theorem) uses twice the *channel's* rise time; the property's "twice the EOM
+  rise time" differs when the EOM bandwidth is below the channel's (known finding F17).
+-/
+import Proofs.Protocol
+import Proofs.SeqInv
+namespace Pulser
+namespace C10
+
+/-- **Phase-jump gap.**  Unless added with 'no-delay', a pulse whose phase differs from the
+phase of the previous (non detuned-delay) pulse `lp` of the channel starts at least
+`max(phase_jump_time, 2·rise_time·[EOM mode]) + fall_time(lp)` after `lp` ended. -/
+theorem phase_jump_gap {ms : Option Nat} {c : ChanState} {others : List ChanState}
+    {p : PulseRec} {barriers : List Int} {proto : Protocol} {drift : Option Drift} {blk : Bool}
+    {slot last ls : Slot} {lp : PulseRec}
+    (hc : 0 < c.cfg.clock) (hl : c.last = .ok last)
+    (h : makeNextPulseSlot ms c others p barriers proto drift blk = .ok slot)
+    (hproto : proto ≠ .noDelay) (hlp : c.lastPulseSlot true = some (ls, lp))
+    (hph : lp.phase ≠ fmtPhase (correctedPhase p drift (curMaxOf others last barriers proto))) :
+    ls.tf + ((max c.cfg.pjt (if c.inEomMode then 2 * c.cfg.rise else 0) : Nat) : Int)
+      + (lp.fall c.inEomMode : Nat) ≤ slot.ti := by
+  obtain ⟨delay, p', h1, _, _, _, _, _, _, hneed⟩ := makeNextPulseSlot_spec hc hl h
+  have hb : phaseJumpBuffer c last.tf
+      (fmtPhase (correctedPhase p drift (curMaxOf others last barriers proto))) proto =
+      ((max c.cfg.pjt (if c.inEomMode then 2 * c.cfg.rise else 0) : Nat) : Int)
+        + (lp.fall c.inEomMode : Nat) - (last.tf - ls.tf) := by
+    unfold phaseJumpBuffer
+    rw [if_pos hproto, hlp]
+    simp only
+    rw [if_pos hph]
+  have := hneed.2.2
+  have hm := Int.le_max_right (curMaxOf others last barriers proto - last.tf)
+    (phaseJumpBuffer c last.tf
+      (fmtPhase (correctedPhase p drift (curMaxOf others last barriers proto))) proto)
+  omega
+
+/-- **Retargeting to the same atoms inserts nothing** (after the repair of F4). -/
+theorem same_target_noop (ms : Option Nat) (c : ChanState) (qs : List Nat)
+    (hne : c.slots.isEmpty = false) (hs : sameTargets c qs = true) :
+    addTarget ms c qs = (⟨c, none⟩ : CRes) := by
+  unfold addTarget
+  rw [hne, hs]
+  simp
+
+theorem lastTarget_le {ms : Option Nat} {c : ChanState} {last : Slot} (hi : ChanInv ms c)
+    (hl : c.last = .ok last) : c.lastTarget ≤ last.tf := by
+  obtain ⟨rest, hr⟩ := last_ok hl
+  have hinv := hi.2; rw [hr] at hinv
+  have hd := InvR_DescTf hinv
+  have h0 := (InvR_head hinv).2
+  unfold ChanState.lastTarget
+  rw [hr]
+  cases hf : (last :: rest).find? Slot.isTarget with
+  | none => exact h0
+  | some s =>
+    have hm := List.mem_of_find?_eq_some hf
+    rcases List.mem_cons.mp hm with h | h
+    · subst h; exact Int.le_refl _
+    · exact DescTf_le hd s h
+
+/-- What a real retarget appends, given the state `c` *after* the fall-time wait:
+the new target instruction starts at the channel end, lasts at least `fixed_retarget_t`
+(and at least the minimum duration when it is not empty), and ends at least
+`min_retarget_interval` after the end of the previous target instruction. -/
+theorem retarget_spec {ms : Option Nat} {c c' : ChanState} {qs : List Nat} {last : Slot}
+    (hi : ChanInv ms c) (hl : c.last = .ok last)
+    (h : (match (if retargetDelta c last.tf ≠ 0 then c.adjust (retargetDelta c last.tf).toNat else .ok 0) with
+          | .error e => (.error e : Except Err ChanState)
+          | .ok delta =>
+            match checkDuration ms (last.tf + (delta : Int)) with
+            | .error e => .error e
+            | .ok _ => .ok { c with slots := c.slots ++ [(⟨.target, last.tf, last.tf + (delta : Int), qs⟩ : Slot)] })
+          = .ok c') :
+    ∃ delta : Nat, c'.slots = c.slots ++ [⟨.target, last.tf, last.tf + (delta : Int), qs⟩] ∧
+      c.cfg.fixedRetarget ≤ delta ∧ (delta = 0 ∨ c.cfg.minDur ≤ delta) ∧
+      (c.cfg.minRetarget : Int) ≤ last.tf + delta - c.lastTarget := by
+  have hlt := lastTarget_le hi hl
+  split at h
+  · cases h
+  · rename_i delta hd
+    split at h
+    · cases h
+    · injection h with h; subst h
+      refine ⟨delta, rfl, ?_⟩
+      have hrd : retargetDelta c last.tf =
+          (if c.cfg.fixedRetarget ≠ 0 then
+            max (min (max ((c.cfg.minRetarget : Int) - (last.tf - c.lastTarget)) 0) c.cfg.minRetarget)
+              (c.cfg.fixedRetarget : Int)
+           else min (max ((c.cfg.minRetarget : Int) - (last.tf - c.lastTarget)) 0) c.cfg.minRetarget) := rfl
+      by_cases hz : retargetDelta c last.tf ≠ 0
+      · rw [if_pos hz] at hd
+        have ha := adjustDuration_ok hi.1 hd
+        refine ⟨?_, .inr ha.1, ?_⟩
+        · have := ha.2.1
+          split at hrd <;> omega
+        · have := ha.2.1
+          split at hrd <;> omega
+      · rw [if_neg hz] at hd
+        injection hd with hd
+        subst hd
+        have hz' : retargetDelta c last.tf = 0 := by omega
+        refine ⟨?_, .inl rfl, ?_⟩
+        · split at hrd <;> omega
+        · split at hrd <;> omega
+
+/-- **A retarget begins only after the previous pulse has fully ramped down**: the fall wait
+that precedes it brings the channel end to at least `get_duration(include_fall_time)`. -/
+theorem retarget_after_fall {ms : Option Nat} {c c1 : ChanState} {l1 : Slot} (hc : 0 < c.cfg.clock)
+    (h : waitForFall ms c = .ok c1) (hl1 : c1.last = .ok l1) (hne : c.slots ≠ []) :
+    c.getDuration true ≤ l1.tf := by
+  unfold waitForFall at h
+  simp only at h
+  have hlast : ∃ last, c.last = .ok last := by
+    unfold ChanState.last
+    cases hg : c.slots.getLast? with
+    | none => simp at hg; exact absurd hg hne
+    | some x => exact ⟨x, rfl⟩
+  obtain ⟨last, hl⟩ := hlast
+  have hd0 : c.getDuration false = last.tf := by
+    obtain ⟨rest, hr⟩ := last_ok hl
+    unfold ChanState.getDuration; rw [hr]; rfl
+  split at h
+  · rename_i hpos
+    cases ha : c.adjust (c.getDuration true - c.getDuration false).toNat with
+    | error e => simp [ha, bind, Except.bind] at h
+    | ok d =>
+      simp only [ha, bind, Except.bind] at h
+      obtain ⟨x, d', e1, _, e3, _, e5, _, _⟩ := addDelay_last hc hl h
+      have hx : c1.last = .ok x := last_snoc c1 _ x e1
+      rw [hx] at hl1; injection hl1 with hl1; subst hl1
+      have := adjustDuration_ok hc ha
+      omega
+  · rename_i hpos
+    injection h with h; subst h
+    rw [hl] at hl1; injection hl1 with hl1; subst hl1
+    omega
+
+/-! ### Non-vacuity -/
+
+def cfgL : ChanCfg :=
+  { clock := 4, minDur := 16, rise := 120, pjt := 240, isLocal := true, minRetarget := 220,
+    fixedRetarget := 100, basis := .digital }
+def exDev : Device := { chans := [cfgL], dmms := [], reusable := false, maxSeqDur := none }
+
+def exS : SeqState :=
+  run (SeqState.init exDev 3)
+    [.declare (.user 0) 0 (some [0]),
+     .add { dur := 100, fallStd := 200, ref := 1 } (.user 0) (some .minDelay),
+     .target [0] (.user 0),        -- same atoms: nothing inserted
+     .target [1] (.user 0),        -- waits for the fall (200), then retargets (>= 100, >= 220 after -0)
+     .add { dur := 52, phase := 1, ref := 2 } (.user 0) (some .minDelay)]
+
+example : (exS.chans.map (·.slots.map fun s => (s.ti, s.tf))) =
+    [[(-1, 0), (0, 100), (100, 300), (300, 400), (400, 540), (540, 592)]] := by decide +kernel
+
+end C10
+end Pulser
